@@ -30,6 +30,8 @@ pub enum Point {
 pub enum Probe {
     /// a waker block `[base, base+size)` for `cap` children has been allocated and initialised
     BlockAlloc { base: usize, size: usize, cap: usize },
+    /// the collection (or group) that created the block at `base` is giving up its own reference
+    ListDrop { base: usize },
     /// the waker block at `base` is about to be destroyed and deallocated
     BlockRelease { base: usize },
     /// a waker vtable function was entered with this slot pointer
